@@ -384,13 +384,34 @@ def make_machine(c, job, H):
     sm.logger = logging.getLogger("sm")  # magicbot injects a logger into every component / mode
     _NTID[0] += 1
     cname = f"sm{_NTID[0]}" if not world.is_sym() else "sm"
+    pre = {}
+    if job.get("pre_durations"):
+        # the duration topics already hold values (a dashboard wrote them, or an earlier robot object in the same
+        # program) when the machine's tunables are connected: those values count, not the decorators' defaults
+        import ntcore
+
+        H.keep = []
+        for name, m in meta.items():
+            if m["timed"]:
+                d = c.real(f"dur_{name}", 0, 100)
+                key = f"/components/{cname}/state/{name}_duration"
+                if world.is_sym():
+                    ntcore.STORE.values[key] = d
+                else:
+                    e = ntcore.NetworkTableInstance.getDefault().getEntry(key)
+                    e.setDouble(float(d))
+                    H.keep.append(e)
+                pre[name] = d
+        c.reach("duration-topics-written-before-setup")
     mt.setup_tunables(sm, cname)
     H.sm = sm
     H.cname = cname
     H.durations = {}
     for name, m in meta.items():
         if m["timed"]:
-            if job.get("sym_durations", True):
+            if name in pre:
+                d = pre[name]
+            elif job.get("sym_durations", True):
                 d = c.real(f"dur_{name}", 0, 100)
                 setattr(sm, f"{name}_duration", d)
             else:
